@@ -99,7 +99,7 @@ def guard_lives_across_awaits(run, f, det):
     if not run.require(len(ys) >= 2, "O15.2", "suspension-points-after-insert", "only %d suspension points after the insert (expected the send await and the reply await)" % len(ys), "%d suspension points after the insert" % len(ys)):
         return
     for y in ys:
-        vs = [v for v in b.layout["variants"] if v["span"] == y.term.get("layout_span", y.term["span"])]
+        vs = b.layout_variants_at(y.term)
         held = False
         names = []
         if len(vs) == 1:
